@@ -3,6 +3,7 @@
 (*  "corpus"  : the logical documents of a run (+ the deleted ids, the vocabulary)            *)
 (*  "search"  : one query tree and what every collector path returned on every segmentation   *)
 (*              of the corpus: all must be exactly {d live : Match(q, d)} (ids, no duplicates)*)
+(*  "error" / "panic": a search that failed - no action accepts it (the trace is rejected there)  *)
 (*  "scorpus" / "ssearch": the same on the abstract 8-document universe of QuerySem, every    *)
 (*              abstract document being a stripe of r real ones; answers come as maximal      *)
 (*              intervals of ids and are checked by inclusion + cardinality (linear).         *)
@@ -126,5 +127,8 @@ Accepted ==
                            [ev |-> e.ev, q |-> e.q, path |-> d[1], expected_abstract_docs |-> d[2], expected_count |-> d[3], r |-> c.r,
                             segments |-> c.segments, merged |-> c.merged, deleted |-> Len(c.deleted),
                             got |-> [count |-> e.res.count, qcount |-> e.res.qcount, docset |-> e.res.docset, top |-> e.res.top]]
+                      \* an answer that is an error or a panic is an observation no action accepts
+                      ELSE IF e.ev = "error" THEN [ev |-> e.ev, q |-> e.q, path |-> "search returned an error", err |-> e.err]
+                      ELSE IF e.ev = "panic" THEN [ev |-> e.ev, q |-> e.q, path |-> "search panicked", err |-> e.msg]
                       ELSE [ev |-> e.ev, why |-> "unknown event or corpus check failed"])>>, FALSE)
 =============================================================================
